@@ -226,8 +226,10 @@ CheckFaulty(e) ==
     /\ V("C11", e, Sane(h) /\ WellFormed(h), "tree not well-formed after pruning under LP faults", "wf/" \o kd)
     /\ V("C11", e, ~Sane(h) \/ PwlEqUpToThin(P0(h), expected, d), "pruning under LP faults changed the represented function", "law/" \o kd)
     /\ V("C11", e, ~Sane(h) \/ CacheSound(h), "an unsound witness or infeasible verdict was cached under LP faults", "cache/" \o kd)
-    /\ V("C11", e, IsNone(e.nofault) \/ e.nofault.res # "ok" \/ ~Sane(h) \/ Occ(ToT(e.nofault.post)) \subseteq Occ(h),
-         "a node kept by the fault-free run was removed under LP faults (more pruning instead of less)", "more-pruning/" \o kd)
+    \* only less pruning: a node that the fault-free run keeps may be missing only if no input can take it (path without interior)
+    /\ V("C11", e, IsNone(e.nofault) \/ e.nofault.res # "ok" \/ ~Sane(h) \/ e.op # "eliminate" \/
+            \A i \in (Occ(ToT(e.nofault.post)) \cap Occ(f)) \ Occ(h) : ThinAnc(f, i),
+         "a node kept by the fault-free run and reachable by inputs was removed under LP faults (more pruning instead of less)", "more-pruning/" \o kd)
 
 \* replace_node(i, a): inputs routed through i get a(x), all others are unchanged; the node is a terminal afterwards
 CheckReplace(e) ==
